@@ -205,6 +205,11 @@ static void fill(CdnsBlock& b, int content, const Pools& P) {
           RR r0 = b.get_rr(0); b.m_rr.add_value(r0); RR r9; r9.name_index = 0; r9.classtype_index = 0; r9.ttl = 99999; b.add_rr(r9);
           QueryResponseSignature s0 = b.get_qr_signature(0); b.m_qr_sig.add_value(s0); QueryResponseSignature s9; s9.server_port = 9999; b.add_qr_signature(s9); }
         break;
+    case 5: // table entries and statistics but no record (an application fills tables first; get_item_count() is 0)
+        b.add_ip_address("only-table-1"); b.add_ip_address("only-table-2"); b.add_name_rdata("only-name"); { ClassType c; c.type = 28; c.class_ = 1; b.add_classtype(c); Question q; q.name_index = 0; q.classtype_index = 0; b.add_question(q); RR r; r.name_index = 0; r.classtype_index = 0; r.ttl = 5; b.add_rr(r);
+          QueryResponseSignature s; s.server_port = 53; b.add_qr_signature(s); MalformedMessageData m; m.server_port = 54; m.mm_payload = std::string("pl"); b.add_malformed_message_data(m); b.add_question_list({0}); b.add_rr_list({0}); }
+        break;
+    case 6: { BlockStatistics st; st.processed_messages = 7; st.malformed_items = 1; b.m_block_statistics = st; break; }   // statistics only
     case 3: for (int i = 0; i < 300; i++) { GenericQueryResponse q = P.qr[3]; q.client_ip = std::string("\x0a\x00", 2) + std::string(1, (char)(i >> 8)) + std::string(1, (char)i); q.query_name = std::string("\x04name", 5) + std::to_string(i); ClassType c; c.type = i; c.class_ = 1; q.query_classtype = c;
                 q.server_port = i; q.response_answers = std::vector<GenericResourceRecord>{rr(*q.query_name, i, 1, (uint32_t)i, std::string("rd") + std::to_string(i))}; q.query_questions = std::vector<GenericResourceRecord>{rr(*q.query_name, i, 1)};
                 b.add_question_response_record(q); GenericMalformedMessage m = P.mm[0]; m.server_port = i; b.add_malformed_message(m); } break;
@@ -425,7 +430,7 @@ int main(int argc, char** argv) {
                    [&](uint64_t, const std::string& d, Result& R) { auto k = crash_key(d); R.violation(std::string("copy|") + WN[atoi(kv["way"].c_str())] + "|" + FN[atoi(kv["fate"].c_str())] + "|" + k, d.substr(0, 2000), s); }, total); return done(total.viol.empty() ? 0 : 1); }
         struct Task { int content, way, fate, o1; };
         std::vector<Task> tasks;
-        for (int c = 0; c < 5; c++) for (int w = 0; w < W_N; w++) for (int f = 0; f < F_N; f++) { if (w == W_READER_ASSIGN && !(f == F_KEPT || f == F_DESTROYED)) continue; for (int o = -1; o < C_N; o++) tasks.push_back({c, w, f, o}); }
+        for (int c = 0; c < 7; c++) for (int w = 0; w < W_N; w++) for (int f = 0; f < F_N; f++) { if (w == W_READER_ASSIGN && !(f == F_KEPT || f == F_DESTROYED)) continue; for (int o = -1; o < C_N; o++) tasks.push_back({c, w, f, o}); }
         int D = T ? 3 : 2;
         Pool pool(a.jobs, 300);
         pool.run(tasks.size(), [&](uint64_t ti, Result& R) {
